@@ -1,6 +1,6 @@
 (* C10 property theorems only. *)
 From Coq Require Import List NArith ZArith Bool.
-From V Require Import lib.Verdict C10.Model C10.Proofs C10.ProofsSort C10.ProofsNs C10.ProofsAmbient.
+From V Require Import lib.Verdict C10.Model C10.Proofs C10.ProofsSort C10.ProofsNs C10.ProofsAmbient C10.ProofsAmbientSingle C10.ProofsAmbientAll.
 
 (* ComposePeerAuthentication followed by GetMutualTLSModeForPort is the precedence rule, for every list of
    policies and every port: port-level entry of the winning workload policy, else that policy's mode, else the
@@ -131,19 +131,41 @@ Theorem C10_ambient_K9_refuted :
 Proof. exact k9_refutes. Qed.
 Print Assumptions C10_ambient_K9_refuted.
 
-(* PARTIAL (bound in the statement, no excluded condition any more): for one workload policy under any
-   namespace/mesh policy without selector, every port map over the keys {80,443,8080} and every probed port, the
-   ambient policies reject an unauthenticated peer iff the effective mode is STRICT, and never reject an
-   authenticated one. *)
-Theorem C10_ambient_strict_ports_partial : forall rm nm wm ports port,
+(* Ambient, for ALL policy sets outside the K9 condition: if every selector is nil or non-empty (no
+   "selector: {}"), creation times are pairwise distinct (the ambient code breaks ties by krt iteration order),
+   (namespace, name) keys are unique and port maps have unique keys (Go maps), then for every workload, peer and
+   port the policies attached by buildWorkloadPolicies / sent by PolicyCollections reject the connection iff the
+   peer is unauthenticated and the effective mode of the port is STRICT.  PARTIAL only in that K9 is excluded by
+   the first hypothesis (C10_ambient_K9_refuted shows it cannot be dropped). *)
+Theorem C10_ambient_strict_ports_partial : forall root all wl_ns labels authenticated port,
+  (forall c, In c all -> ns_level c = sel_nil c) ->
+  NoDup (map pa_time all) ->
+  NoDup (map pkey all) ->
+  (forall c, In c all -> NoDup (map fst (pa_ports c))) ->
+  ambient_denies root all wl_ns labels authenticated port =
+  negb authenticated && mode_eqb (effective_mode root all wl_ns labels port) MStrict.
+Proof. exact ambient_strict_ports_all. Qed.
+Print Assumptions C10_ambient_strict_ports_partial.
+
+(* the converter and the attachment rule on the winning policies alone: any port map, any port, any records *)
+Theorem C10_ambient_winners_enforce : forall root rootc nsc w authenticated port,
+  N.eqb (pa_ns w) root = false -> sel_nil w = false -> NoDup (map fst (pa_ports w)) ->
+  ambient_single root rootc nsc w authenticated port =
+  negb authenticated && mode_eqb (effective3 rootc nsc w port) MStrict.
+Proof. exact ambient_single_correct. Qed.
+Print Assumptions C10_ambient_winners_enforce.
+
+(* an independent exhaustive evaluation on a bounded domain (12500 worlds x 4 ports, vm_compute) *)
+Theorem C10_ambient_strict_ports_bounded : forall rm nm wm ports port,
   In rm opt_modes -> In nm opt_modes -> In ports (port_maps bound_keys) -> In port bound_probes ->
   ambient_denies 0 (world3 rm nm wm ports) 1 w_lbl false port =
     mode_eqb (effective_mode 0 (world3 rm nm wm ports) 1 w_lbl port) MStrict /\
   ambient_denies 0 (world3 rm nm wm ports) 1 w_lbl true port = false.
 Proof. exact ambient_strict_ports_bounded. Qed.
-Print Assumptions C10_ambient_strict_ports_partial.
+Print Assumptions C10_ambient_strict_ports_bounded.
 
-(* non-vacuity: the hypotheses of the partial theorem are satisfiable, with a STRICT and a non-STRICT outcome *)
+(* non-vacuity: a STRICT and a non-STRICT outcome in one world (which satisfies the hypotheses of the general
+   theorem: nil/non-empty selectors, distinct times, unique keys) *)
 Example C10_partial_nonvacuous :
   In [(8080%N, MPermissive)] (port_maps bound_keys) /\
   ambient_denies 0 (world3 (Some MStrict) None MUnset [(8080%N, MPermissive)]) 1 w_lbl false 80 = true /\
@@ -156,3 +178,17 @@ Example C10_precedence_example :
   mode_for_port (compose 0 l) 8080 = MDisable /\ mode_for_port (compose 0 l) 9090 = MPermissive /\
   mode_for_port (compose 0 l) 80 = MPermissive /\ effective_mode 0 l 1 w_lbl 9090 = MPermissive.
 Proof. vm_compute. intuition. Qed.
+
+(* the hypotheses of C10_ambient_strict_ports_partial are satisfiable (here by a world with both outcomes) *)
+Example C10_ambient_hypotheses_satisfiable :
+  let all := world3 (Some MStrict) None MUnset [(8080%N, MPermissive)] in
+  (forall c, In c all -> ns_level c = sel_nil c) /\ NoDup (map pa_time all) /\ NoDup (map pkey all) /\
+  (forall c, In c all -> NoDup (map fst (pa_ports c))) /\
+  ambient_denies 0 all 1 w_lbl false 80 = true /\ ambient_denies 0 all 1 w_lbl false 8080 = false.
+Proof.
+  cbn. repeat split.
+  - intros c [<-|[<-|[]]]; reflexivity.
+  - repeat constructor; cbn; intuition discriminate.
+  - repeat constructor; cbn; intuition discriminate.
+  - intros c [<-|[<-|[]]]; cbn; repeat constructor; cbn; intuition.
+Qed.
